@@ -60,7 +60,7 @@ def gen_cases(run, n, prefix="c"):
     schema = None
     for i in range(n):
         if i % 3 == 0:
-            schema = gen_schema(rng, odd_type_names=(i % 6 == 0))
+            schema = gen_schema(rng, odd_type_names=(i % 6 == 0), narrowing=0.35 if i % 2 else 0.0)
         doc, feats = gen_document(schema, rng)
         opts = {"other_variant": rng.random() < 0.3, "skip_none": rng.random() < 0.2}
         if rng.random() < 0.3:
